@@ -153,8 +153,10 @@ func init() {
 		}, 4)
 		ht := mergeSets(map[*types.Func]bool{w.MethodObj("container/hash", "LinearProbeHashTable", "Insert"): true}, map[*types.Func]bool{w.MethodObj("container/hash", "LinearProbeHashTable", "Remove"): true})
 		wmc(w, r, "LinearProbeHashTable.Insert/Remove", ht, map[string]string{
-			"(*storage/index.LinearProbeHashTableIndex).InsertEntry": "wrapper",
-			"(*storage/index.LinearProbeHashTableIndex).DeleteEntry": "wrapper",
+			"(*storage/index.LinearProbeHashTableIndex).InsertEntry":      "wrapper",
+			"(*storage/index.LinearProbeHashTableIndex).DeleteEntry":      "wrapper",
+			"(*storage/index.LinearProbeHashTableIndex).insertEntryInner": "wrapper",
+			"(*storage/index.LinearProbeHashTableIndex).deleteEntryInner": "wrapper",
 		}, 2)
 	})
 }
